@@ -87,3 +87,22 @@ inline double stale_buffer(const Eigen::MatrixXd& A, int n)
     return s;
 }
 }  // namespace SpectraControl
+
+// positive control: aligned packet access whose alignment is tested for the first column only
+#include <cstdint>
+namespace SpectraControl {
+template <int Mode>
+inline double aligned_second_column(double* x, long stride)
+{
+    typedef Eigen::internal::packet_traits<double>::type Packet;
+    double* x1 = x + stride;
+    Packet p = Eigen::internal::ploadt<Packet, Mode>(x1);
+    return Eigen::internal::pfirst(p);
+}
+inline double aligned_dispatch(double* x, long stride)
+{
+    if (reinterpret_cast<std::uintptr_t>(x) % 16 == 0)
+        return aligned_second_column<16>(x, stride);
+    return aligned_second_column<0>(x, stride);
+}
+}  // namespace SpectraControl
